@@ -349,6 +349,46 @@ int Judge::expect_c(const CoLine& L, double x, double y, const GeodesicLine& ix,
   return sinth < 1e-7 ? L.c : 0;
 }
 
+// ------------------------------------------------------------------ Next on coincident geodesics: conjugate points
+// reduced length m12 from the start of a line to displacement s (GeodesicLine::Position, independent of Intersect)
+static double m12_at(const GeodesicLine& l, double s) { double lat, lon, azi, m; l.Position(s, lat, lon, azi, m); return m; }
+// first zero of m12 in direction dir (+1/-1) beyond the start: bracket on a 2e5 m grid, then bisect.  NaN if none below 5e7 m.
+static double conjugate_dist(const GeodesicLine& l, int dir, double sc) {
+  const double h = 2e5 * sc;
+  double s0 = 1e6 * sc, m0 = m12_at(l, dir * s0);
+  for (double s1 = s0 + h; s1 <= 5e7 * sc; s1 += h) {
+    double m1 = m12_at(l, dir * s1);
+    if ((m0 > 0) != (m1 > 0)) {
+      double a = s0, b = s1, ma = m0;
+      for (int k = 0; k < 80 && b - a > 1e-7 * sc; ++k) { double c = (a + b) / 2, mc_ = m12_at(l, dir * c); if ((mc_ > 0) == (ma > 0)) { a = c; ma = mc_; } else b = c; }
+      return (a + b) / 2;
+    }
+    s0 = s1; m0 = m1;
+  }
+  return NAN;
+}
+// predicates for Next(lineX, lineY) when the two lines were constructed coincident (Y = X or Y = X reversed):
+//  * a result flagged c = +-1 is a conjugate point of the start: m12(start -> x along X) = 0;
+//  * whatever is returned, its L1 distance does not exceed that of the nearest conjugate point (s, c s), found here by
+//    bracketing and bisection of m12 in both directions (a closer genuine self-crossing with c = 0 is a legitimate answer).
+static void conjugate_checks(Judge& J, const GeodesicLine& ix, double x, double y, int c1, double sc) {
+  const double dlib = std::fabs(x) + std::fabs(y);
+  if (c1 != 0) {
+    double m = m12_at(ix, x), tol = 4 * J.restol(x, y);
+    J.ctx.worstf("ix.next.conjugate_m12_over_tol", std::fabs(m) / tol, [&] { return J.where + " x=" + fx(x) + " m12=" + fmt(m); });
+    if (!(std::fabs(m) <= tol)) J.failk("next-not-conjugate", "flagged coincident (c = " + fmti(c1) + ") but the reduced length from the start to x = " + fx(x) + " is m12 = " + fmt(m) + " m: not a conjugate point");
+  }
+  double sp = conjugate_dist(ix, +1, sc), sm = conjugate_dist(ix, -1, sc);
+  double smin = std::fmin(sp, sm);                       // fmin ignores a NaN
+  if (smin == smin) {
+    double tol = 1e-3 * sc + 4 * J.restol(x, y);
+    J.ctx.worstf("ix.next.coincident_excess_over_nearest_conjugate_m", dlib - 2 * smin, [&] { return J.where; });
+    if (!(dlib <= 2 * smin + tol))
+      J.failk("next-coincident-not-minimal", "returned (" + fx(x) + "," + fx(y) + ") at L1 distance " + fx(dlib) + " but the conjugate points of the start lie at +" + fmt(sp) + " / -" + fmt(sm) +
+              " along the line, i.e. (s, c s) at L1 distance " + fmt(2 * smin));
+  } else J.ctx.count("ix.next.no-conjugate-point-bracketed");
+}
+
 int main(int argc, char** argv) {
   Ctx ctx(argc, argv);
   const bool T = ctx.thorough();
@@ -634,6 +674,7 @@ int main(int argc, char** argv) {
           // the conjugate distance is pi R: check that as the natural reading of "next".
           // (the limit of the lattice (i pi R, j pi R), i+j even, for vanishing crossing angle: L1 distance 2 pi R)
           if (E.f == 0 && !(std::fabs(dlib - (double)(2 * LPI * E.a)) <= 1e-6)) J.failk("next-coincident-distance", "sphere, coincident lines: L1 distance " + fx(dlib) + " is not 2 pi R (conjugate point)");
+          conjugate_checks(J, ix, p.first, p.second, c1, sc);
           continue;
         }
         if (E.f == 0) {
@@ -661,6 +702,58 @@ int main(int argc, char** argv) {
     ctx.count("ix.scan.cells", st.cells); ctx.count("ix.scan.candidate_cells", st.candidates); ctx.count("ix.scan.roots", st.roots);
     ctx.count("ix.scan.newton_parallel", st.parallel); ctx.count("ix.scan.newton_wandered", st.wandered); ctx.count("ix.scan.newton_unconverged", st.unconverged);
     ctx.count("ix.scan.clipped", st.clipped);
+  }
+
+  // ================================================================ Next on coincident geodesics, starts off the equator
+  ctx.sub("ix-next-coincident");
+  {
+    std::vector<Ell> ce = {{"WGS84", aW, fW, false, 15e-9}, {"f=+1/50", aW, 0.02, false, 30e-9}, {"f=-1/50", aW, -0.02, false, 30e-9},
+                           {"f=+1/5 exact", aW, 0.2, true, 40e-9}, {"f=-1/4 exact", aW, -0.25, true, 40e-9}, {"sphere", aW, 0, false, 15e-9}};
+    std::vector<PDef> starts = {{"(-25,10)", -25, 10}, {"(40,-75)", 40, -75}, {"(20,-30)", 20, -30}, {"(-60,100)", -60, 100}, {"(5,130)", 5, 130}, {"(75,33)", 75, 33}};
+    std::vector<double> azis = {70, 30, 0, 90, 135, -110, -20, 179};
+    if (T) { ce.push_back({"f=+1/10 exact", aW, 0.1, true, 40e-9}); ce.push_back({"f=-1/10 exact", aW, -0.1, true, 40e-9});
+      for (PDef s : {PDef{"(-1,0)", -1, 0}, PDef{"(-45,-45)", -45, -45}, PDef{"(89,60)", 89, 60}, PDef{"(-80,-150)", -80, -150}, PDef{"(12,179)", 12, 179}, PDef{"(33,5)", 33, 5}}) starts.push_back(s);
+      for (double a : {10.0, 45.0, 60.0, 89.0, 100.0, 150.0, -45.0, -70.0, -135.0, -160.0, 1e-3, 120.5}) azis.push_back(a); }
+    ctx.bound("ix-next-coincident", std::string("Next(lineX, lineY) with aziY = aziX and aziY = aziX + 180 (and the (lat,lon,aziX,aziY) overload): ellipsoids WGS84, f=+-1/50, f=1/5 and -1/4 exact, sphere") +
+              (T ? ", f=+-1/10 exact; 12 start points off the equator x 20 azimuths" : "; start points (-25,10) (40,-75) (20,-30) (-60,100) (5,130) (75,33) x azimuths {70,30,0,90,135,-110,-20,179}") +
+              "; predicates: common point; c as constructed on the coincidence line; a result flagged c = +-1 has m12(start -> x) = 0 (conjugate point, GeodesicLine::Position); "
+              "L1 distance <= that of the nearest conjugate point found by bracketing + bisection of m12 in both directions");
+    uint64_t calls = 0, flagged = 0, crossing = 0;
+    for (const Ell& E : ce) for (const PDef& s0 : starts) {
+      if (!ctx.take()) continue;
+      const double sc = E.a / aW;
+      Geodesic g(E.a, E.f, E.exact);
+      Intersect* inp = make_intersect(ctx, E, g, std::string(E.name) + " start " + s0.name);
+      if (!inp) continue;
+      Judge J{ctx, E, g, sc, 20e-9 * sc * (E.gdoc / 15e-9)};
+      double qm; g.Inverse(0, 0, 90, 0, qm);
+      for (double ax : azis) for (int rev = 0; rev < 2; ++rev) {
+        Ctx::Case cs(ctx); ++calls;
+        const double ay = rev ? (ax > 0 ? ax - 180 : ax + 180) : ax;         // exact in double for these azimuths
+        const int ec = rev ? -1 : 1;
+        J.where = std::string("next-coincident ") + E.name + " start=" + s0.name + " aziX=" + fx(ax) + " aziY=" + fx(ay);
+        J.F = {{"kind", ""}, {"ellipsoid", E.name}, {"coincident", fmti(ec)}, {"relation", rev ? "coincident" : "identical"}, {"c", ""}};
+        const GeodesicLine lx = g.Line(s0.lat, s0.lon, ax, Intersect::LineCaps), ly = g.Line(s0.lat, s0.lon, ay, Intersect::LineCaps);
+        const GeodesicLine ix = g.Line(s0.lat, s0.lon, ax), iy = g.Line(s0.lat, s0.lon, ay);
+        int c1 = -9, c2 = -9;
+        Intersect::Point p = inp->Next(lx, ly, &c1), p2 = inp->Next(s0.lat, s0.lon, ax, ay, &c2);
+        J.F[4].second = fmti(c1);
+        ctx.sig(400 + (c1 + 2) * 5 + rev);
+        if (!mc::same_bits(p.first, p2.first) || !mc::same_bits(p.second, p2.second) || c1 != c2) J.failk("overloads-differ", "Next(lat,lon,aziX,aziY) and Next(lines) differ");
+        CoLine CL; CL.c = ec; CL.b = 0;
+        if (E.f == 0) CL.pers = {2 * LPI * E.a}; else CL.pers = {0, 2 * LPI * E.a, 4 * (ld)qm};
+        double sinth;
+        if (!J.check_point("next", ix, iy, p.first, p.second, sinth, &CL)) continue;
+        const int lc = J.expect_c(CL, p.first, p.second, ix, iy);
+        if (c1 != lc) J.failk("coincidence-indicator", "c = " + fmti(c1) + ", expected " + fmti(lc) + " (lines constructed with c = " + fmti(ec) + ")");
+        if (!(std::fabs(p.first) + std::fabs(p.second) > 1.0 * sc)) { J.failk("next-is-origin", "Next returned the starting intersection itself"); continue; }
+        if (c1 != 0) ++flagged; else ++crossing;
+        conjugate_checks(J, ix, p.first, p.second, c1, sc);
+        if (ctx.want_sample()) ctx.sample(J.where + " -> (" + fmt(p.first) + "," + fmt(p.second) + ") c=" + fmti(c1));
+      }
+      delete inp;
+    }
+    ctx.count("calls", calls); ctx.count("ix-next-coincident.flagged_conjugate", flagged); ctx.count("ix-next-coincident.self_crossing_c0", crossing);
   }
 
   // ================================================================ Segment
